@@ -18,7 +18,7 @@ def run(tier, seed):
     nsh = core.NCPU if tier == "thorough" else min(12, core.NCPU)
     cases, sums, notes = core.run_sharded(exe, "c11", seed, tier, nsh, timeout=3000)
     r.add_cases(cases, "native")
-    core.also_librel(r, tier, False, lambda exe2: core.run_sharded(exe2, "c11", seed, tier, nsh, timeout=3000))
+    core.also_librel(r, tier, True, lambda exe2: core.run_sharded(exe2, "c11", seed, tier, nsh, timeout=3000))
     r.notes += notes
     obs = core.sum_dicts(sums)
     r.observe("native", obs)
